@@ -107,8 +107,16 @@ func gen(r *hx.Rand, n int, tier string, emit func(string), st *hx.Stats) {
 		}
 		// a pool of tuples reused across stores so that the same keys appear in several stores with different fates
 		type tup struct{ o, r, u string }
+		curated := []tup{{"group:a", "member", "user:x"}, {"group:a", "member", "user:y"}, {"group:b", "member", "user:z"}, {"group:a", "member", "group:b#member"},
+			{"group:a", "member", "user:*"}, {"doc:1", "owner", "user:x"}, {"doc:1", "owner", "group:a#member"}, {"doc:1", "editor", "user:y"},
+			{"doc:1", "editor", "group:a#member"}, {"doc:1", "viewer", "user:z"}, {"doc:1", "viewer", "user:*"}, {"doc:1", "viewer", "group:b#member"},
+			{"doc:2", "parent", "doc:1"}, {"doc:3", "parent", "doc:2"}, {"doc:2", "owner", "user:y"}, {"doc:2", "viewer", "user:x"}, {"doc:3", "editor", "group:b#member"}}
 		var pool []tup
-		for k := 0; k < 10; k++ {
+		for k := 0; k < 12; k++ {
+			if c.Chance(3, 4) {
+				pool = append(pool, hx.Pick(c, curated))
+				continue
+			}
 			o := hx.Pick(c, objs)
 			pool = append(pool, tup{o, hx.Pick(c, relsByType[fga.TypeOf(o)]), hx.Pick(c, users)})
 		}
@@ -116,7 +124,9 @@ func gen(r *hx.Rand, n int, tier string, emit func(string), st *hx.Stats) {
 		for k := 0; k < nops; k++ {
 			s := c.Intn(3)
 			t := hx.Pick(c, pool)
-			switch p := c.Intn(40); {
+			switch p := c.Intn(46); {
+			case p >= 40:
+				ops = append(ops, fmt.Sprintf("wt %d %s %s %s -", s, t.o, t.r, t.u))
 			case p < 10:
 				cond := "-"
 				if c.Chance(1, 5) {
